@@ -1,5 +1,6 @@
 #include "oracle.hpp"
 #include <tuple>
+#include <functional>
 #include <algorithm>
 #include "model.hpp"
 #include <algorithm>
@@ -14,6 +15,7 @@ struct Facts {
     bool nested = false, regions = false, pseudo = false, history = false, completion = false, defer = false,
          blocking = false, hierarchy_events = false, flags = false, internal = false;
     std::vector<uint8_t> deferrable; // per event type
+    std::vector<uint8_t> leaf_internal, action_internal; // guard leaf / action used by a row of an sm-internal or state-local table
 };
 static Facts facts_of(const Desc& d) {
     Facts f;
@@ -43,6 +45,19 @@ static Facts facts_of(const Desc& d) {
             }
     }
     for (auto& e : d.events) if (e.base >= 0) f.hierarchy_events = true;
+    f.leaf_internal.assign(d.nleaves, 0);
+    f.action_internal.assign(d.nactions, 0);
+    std::function<void(int)> mark = [&](int node) {
+        if (node < 0) return;
+        const DGuardNode& g = d.gnodes[node];
+        if (g.op == 0) { if (g.leaf >= 0 && g.leaf < d.nleaves) f.leaf_internal[g.leaf] = 1; return; }
+        mark(g.a); if (g.op >= 2) mark(g.b);
+    };
+    for (auto& r : d.rows)
+        if (r.table != 0) {
+            mark(r.guard);
+            for (int a : r.actions) if (a >= 0 && a < d.nactions) f.action_internal[a] = 1;
+        }
     return f;
 }
 
@@ -90,8 +105,19 @@ static void attribute(const Desc& d, const Facts& f, const Plan& plan, const Wor
         }
         return false;
     };
+    // a guard leaf or action of a state-local / sm-internal table row behaves differently: those tables are one of the
+    // front-end forms C14 names
+    auto internal_table_row = [&]() {
+        for (const Rec* r : {O, E}) {
+            if (!r) continue;
+            if (r->kind == K_G && r->site >= 0 && r->site < (int)f.leaf_internal.size() && f.leaf_internal[r->site]) return true;
+            if (r->kind == K_A && r->site >= 0 && r->site < (int)f.action_internal.size() && f.action_internal[r->site]) return true;
+        }
+        return false;
+    };
     auto add_context = [&]() {
         if (entry_cascade()) add(P, "C08");
+        if (internal_table_row()) add(P, "C14");
         if (after_throw) add(P, "C12");
         if (after_copy) add(P, "C15");
         if (after_load) add(P, "C16");
